@@ -140,6 +140,7 @@ namespace adept {
   Stack::compute_adjoint()
   {
     if (gradients_are_initialized()) {
+      extend_gradients();
       // Loop backwards through the derivative statements
       for (uIndex ist = n_statements_-1; ist > 0; ist--) {
 	const Statement& statement = statement_[ist];
@@ -171,6 +172,7 @@ namespace adept {
   Stack::compute_tangent_linear()
   {
     if (gradients_are_initialized()) {
+      extend_gradients();
       // Loop forward through the statements
       for (uIndex ist = 1; ist < n_statements_; ist++) {
 	const Statement& statement = statement_[ist];
@@ -527,14 +529,47 @@ namespace adept {
 	gradient_[i] = 0.0;
       }
     }
+    n_gradients_initialized_ = max_gradient_;
     gradients_initialized_ = true;
+  }
+
+  // Statements recorded after the gradients were initialized may
+  // refer to active objects created since then: make sure the
+  // gradient list covers them (with zero gradient) before a sweep
+  void
+  Stack::extend_gradients()
+  {
+    if (n_gradients_initialized_ < max_gradient_) {
+      if (n_allocated_gradients_ < max_gradient_) {
+	Real* new_gradient = new Real[max_gradient_];
+	for (uIndex i = 0; i < n_gradients_initialized_; i++) {
+	  new_gradient[i] = gradient_[i];
+	}
+	if (gradient_) {
+	  delete[] gradient_;
+	}
+	gradient_ = new_gradient;
+	n_allocated_gradients_ = max_gradient_;
+      }
+      for (uIndex i = n_gradients_initialized_; i < max_gradient_; i++) {
+	gradient_[i] = 0.0;
+      }
+    }
   }
 #else
   void
   Stack::initialize_gradients()
   {
     gradient_.resize(max_gradient_+10, 0.0);
+    n_gradients_initialized_ = max_gradient_;
       gradients_initialized_ = true;
+  }
+  void
+  Stack::extend_gradients()
+  {
+    if (gradient_.size() < max_gradient_) {
+      gradient_.resize(max_gradient_+10, 0.0);
+    }
   }
 #endif
 
